@@ -686,11 +686,15 @@ pub struct Style {
     pub const_variant: usize,
     pub extra_blanks: bool,
     pub redundant_parens: bool,
+    /// with `extra_blanks`: blanks may also be line breaks, carriage returns and other Unicode white space
+    pub line_breaks: bool,
 }
 
 pub fn render_styled(f: &F, style: &Style, rng: &mut Rng) -> String {
     fn blank(style: &Style, rng: &mut Rng) -> String {
-        if style.extra_blanks {
+        if style.extra_blanks && style.line_breaks && rng.coin() {
+            rng.pick(&["\n", "\r\n", " \n\t", "\u{a0}", "\u{2003}", "\u{c}", "\n\n  "]).to_string()
+        } else if style.extra_blanks {
             match rng.below(4) {
                 0 => String::new(),
                 1 => " ".to_string(),
